@@ -269,6 +269,27 @@ def long_ops(rng, tier):
     return ops
 
 
+def big_ops(rng, tier):
+    """frames of several KiB up to beyond 64 KiB (a reader or writer may treat large frames specially: staged growth, chunked transfer)
+    with Interrupted calls and short transfers inside the payload"""
+    ops = []
+    for k in range(24 if tier == "quick" else 200):
+        sizes = rng.choice([[4095], [4096], [4097], [5000], [8192, 3], [3, 8193, 5], [12000], [4097, 4097], [70000], [5, 65537]])
+        vs = [("b", gen.rand_bytes(rng, n)) for n in sizes]
+        ps = [F.payload(v) for v in vs]
+        st = F.frames(ps)
+        ptag = "/".join(gen.hexb(p) for p in ps)
+        ml = max(len(p) for p in ps)
+        parts = F.rand_composition(rng, len(st), rng.choice([700, 1999, 4096, 5000, 100000]))
+        sc = with_intr(parts, [rng.randint(0, len(parts)) for _ in range(rng.randint(1, 6))])
+        ops.append(f"fread {ml} {len(ps) + 2} {gen.hexb(st)} {F.script_tok(sc)} #k=rand #p={ptag}")
+        evs = []
+        for _ in range(rng.randint(0, 40)):
+            evs.append(rng.choice([1, 2, 3, 4, 5, 700, 4096, 4097, 10000, "i", "i"]))
+        ops.append(f"fwrite {ml} {F.vals_tok(vs)} {F.script_tok(evs)} #k=wr")
+    return ops
+
+
 def mk(name, ops, rule):
     if name != "replay":
         ops = F.ctor_expand(ops)      # every 4th scenario once more through with_buffer(..) with some buffer
@@ -286,6 +307,7 @@ def streams(rng, tier):
         mk("reader-maxlen", maxlen_ops(rng, tier), "max_len around the frame size, hostile prefixes; oracle: err:len with buffer untouched, peak allocation request bounded"),
         mk("writer", writer_ops(rng, tier), "short writes + Interrupted, encode failures, max_len; oracle: exact frame bytes and return values"),
         mk("random", random_ops(rng, tier), "seeded random longer scenarios; benign ones judged by the oracle, the rest against the model"),
+        mk("big-frames", big_ops(rng, tier), "frames of 4095..70000 bytes read in 700..5000-byte pieces with Interrupted calls inside the payload, and written through short / 1..5-byte / Interrupted writes; oracle: every value once, in order / exact frame bytes"),
         mk("long-streams", long_ops(rng, tier), "31..300 frames through one reader and one writer under chunking and Interrupted; oracle: every value once, in order / exact frame bytes"),
     ]
 
